@@ -98,20 +98,59 @@ class Recorder:
         self.open = []
         self.base = None
         self.hook = None     # optional callable(event index) -> None (C05 batons)
+        self.fault = None    # fault injection: dict(at="w"|"r", k=event index, n=read number, mode=, kind=)
+        self.fired = None    # index of the event at which the fault was raised
+        self.reads = []      # reads[k] = number of read calls seen before mutating event k (after event k-1)
+        self.post_snaps = [] # (event index, copy) taken before every mutating call AFTER the fault fired
 
-    def start(self, repo_dir, snap_base, snapshots=True):
+    def start(self, repo_dir, snap_base, snapshots=True, fault=None):
         self.repo_dir = os.path.realpath(repo_dir)
         self.events = []
         self.snaps = []
         self.open = []
         self.base = snap_base
         self.snapshots = snapshots
+        self.fault = fault
+        self.fired = None
+        self.reads = [0]
+        self.post_snaps = []
         self.active = True
 
     def stop(self):
         self.active = False
-        final = self._snap(len(self.events)) if self.snapshots else None
+        final = self._snap(len(self.events)) if (self.snapshots or self.fault is not None) else None
         return final
+
+    def _raise(self):
+        kind = self.fault["kind"]
+        if kind == "interrupt":
+            raise KeyboardInterrupt("injected by the C04 check")
+        if kind == "transport":
+            from breezy import errors
+            raise errors.TransportError("injected by the C04 check")
+        import errno
+        raise OSError(errno.ENOSPC, "No space left on device (injected by the C04 check)")
+
+    def read(self, t, a):
+        """called before a non-mutating transport call (get / get_bytes / readv / has / stat / list_dir)"""
+        if not self.active:
+            return
+        if self._rel(t, a) is None:
+            return
+        self.reads[-1] += 1
+        f = self.fault
+        if (f is not None and self.fired is None and f["at"] == "r" and f["k"] == len(self.events)
+                and f["n"] == self.reads[-1]):
+            self.fired = len(self.events)
+            self._raise()
+
+    def after(self, k):
+        """called after the transport call of event `k` has returned"""
+        f = self.fault
+        if (k is not None and f is not None and self.fired is None and f["at"] == "w" and f["k"] == k
+                and f["mode"] == "after"):
+            self.fired = k
+            self._raise()
 
     def _snap(self, k):
         """copy of the control directory's repository.  Files of the four pack
@@ -177,14 +216,25 @@ class Recorder:
         k = len(self.events)
         if self.snapshots:
             self.snaps.append(self._snap(k))
+        elif self.fired is not None:
+            # a crash inside the error handling: copy before every call made after the fault
+            self.post_snaps.append((k, self._snap(k)))
         self.events.append((kind, ra, rb, tuple(self.open)))
-        if kind in ("ows", "append_file", "append_bytes", "put_bytes_non_atomic", "put_file_non_atomic", "copy") and self.snapshots:
+        self.reads.append(0)
+        f = self.fault
+        if (f is not None and self.fired is None and f["at"] == "w" and f["k"] == k and f["mode"] == "before"):
+            # the call is not performed at all
+            self.fired = k
+            self._raise()
+        if kind in ("ows", "append_file", "append_bytes", "put_bytes_non_atomic", "put_file_non_atomic", "copy") \
+                and (self.snapshots or self.post_snaps):
             self._unshare(rb if kind == "copy" else ra)
         if kind == "ows":
             self.open.append(ra)
         elif kind == "close":
             if ra in self.open:
                 self.open.remove(ra)
+        return k
 
 
 REC = Recorder()
@@ -200,10 +250,13 @@ class _Stream:
         return self._s.write(b)
 
     def close(self, *a, **k):
-        if not self._closed:
-            self._closed = True
-            REC.event("close", self._t, self._rel)
-        return self._s.close(*a, **k)
+        if self._closed:
+            return self._s.close(*a, **k)
+        ev = REC.event("close", self._t, self._rel)    # an injected fault leaves the stream open
+        self._closed = True
+        r = self._s.close(*a, **k)
+        REC.after(ev)
+        return r
 
     def __getattr__(self, n):
         return getattr(self._s, n)
@@ -222,63 +275,83 @@ def register():
         def _get_url_prefix(cls):
             return PREFIX
 
+        def _mut(self, kind, fn, a, b=None):
+            ev = REC.event(kind, self, a, b)
+            r = fn()
+            REC.after(ev)
+            return r
+
         def rename(self, a, b):
-            REC.event("rename", self, a, b)
-            return self._decorated.rename(a, b)
+            return self._mut("rename", lambda: self._decorated.rename(a, b), a, b)
 
         def move(self, a, b):
-            REC.event("move", self, a, b)
-            return self._decorated.move(a, b)
+            return self._mut("move", lambda: self._decorated.move(a, b), a, b)
 
         def copy(self, a, b):
-            REC.event("copy", self, a, b)
-            return self._decorated.copy(a, b)
+            return self._mut("copy", lambda: self._decorated.copy(a, b), a, b)
 
         def delete(self, a):
-            REC.event("delete", self, a)
-            return self._decorated.delete(a)
+            return self._mut("delete", lambda: self._decorated.delete(a), a)
 
         def delete_tree(self, a):
-            REC.event("delete_tree", self, a)
-            return self._decorated.delete_tree(a)
+            return self._mut("delete_tree", lambda: self._decorated.delete_tree(a), a)
 
         def mkdir(self, a, mode=None):
-            REC.event("mkdir", self, a)
-            return self._decorated.mkdir(a, mode)
+            return self._mut("mkdir", lambda: self._decorated.mkdir(a, mode), a)
 
         def rmdir(self, a):
-            REC.event("rmdir", self, a)
-            return self._decorated.rmdir(a)
+            return self._mut("rmdir", lambda: self._decorated.rmdir(a), a)
 
         def put_file(self, a, f, mode=None):
-            REC.event("put_file", self, a)
-            return self._decorated.put_file(a, f, mode)
+            return self._mut("put_file", lambda: self._decorated.put_file(a, f, mode), a)
 
         def put_bytes(self, a, b, mode=None):
-            REC.event("put_bytes", self, a)
-            return self._decorated.put_bytes(a, b, mode)
+            return self._mut("put_bytes", lambda: self._decorated.put_bytes(a, b, mode), a)
 
         def put_bytes_non_atomic(self, a, b, mode=None, create_parent_dir=False, dir_mode=None):
-            REC.event("put_bytes_non_atomic", self, a)
-            return self._decorated.put_bytes_non_atomic(a, b, mode=mode, create_parent_dir=create_parent_dir,
-                                                        dir_mode=dir_mode)
+            return self._mut("put_bytes_non_atomic", lambda: self._decorated.put_bytes_non_atomic(
+                a, b, mode=mode, create_parent_dir=create_parent_dir, dir_mode=dir_mode), a)
 
         def put_file_non_atomic(self, a, f, mode=None, create_parent_dir=False, dir_mode=None):
-            REC.event("put_file_non_atomic", self, a)
-            return self._decorated.put_file_non_atomic(a, f, mode=mode, create_parent_dir=create_parent_dir,
-                                                       dir_mode=dir_mode)
+            return self._mut("put_file_non_atomic", lambda: self._decorated.put_file_non_atomic(
+                a, f, mode=mode, create_parent_dir=create_parent_dir, dir_mode=dir_mode), a)
 
         def append_file(self, a, f, mode=None):
-            REC.event("append_file", self, a)
-            return self._decorated.append_file(a, f, mode=mode)
+            return self._mut("append_file", lambda: self._decorated.append_file(a, f, mode=mode), a)
 
         def append_bytes(self, a, b, mode=None):
-            REC.event("append_bytes", self, a)
-            return self._decorated.append_bytes(a, b, mode=mode)
+            return self._mut("append_bytes", lambda: self._decorated.append_bytes(a, b, mode=mode), a)
 
         def open_write_stream(self, a, mode=None):
-            REC.event("ows", self, a)
-            return _Stream(self._decorated.open_write_stream(a, mode=mode), self, a)
+            ev = REC.event("ows", self, a)
+            st = _Stream(self._decorated.open_write_stream(a, mode=mode), self, a)
+            REC.after(ev)
+            return st
+
+        # non-mutating calls: counted (and possibly failed) but not part of the trace
+        def get(self, a):
+            REC.read(self, a)
+            return self._decorated.get(a)
+
+        def get_bytes(self, a):
+            REC.read(self, a)
+            return self._decorated.get_bytes(a)
+
+        def readv(self, a, offsets, *args, **kw):
+            REC.read(self, a)
+            return self._decorated.readv(a, offsets, *args, **kw)
+
+        def has(self, a):
+            REC.read(self, a)
+            return self._decorated.has(a)
+
+        def stat(self, a):
+            REC.read(self, a)
+            return self._decorated.stat(a)
+
+        def list_dir(self, a):
+            REC.read(self, a)
+            return self._decorated.list_dir(a)
 
     bt.register_transport_proto(PREFIX)
     bt.register_transport(PREFIX, CrashLogTransport)
